@@ -187,6 +187,32 @@ func TestFilter(t *testing.T) {
 			Bases    []string
 		}{size, sp.Ids, sp.RingBits, fp.Bases}
 		for _, bk := range p.Bases {
+			func() {
+				defer func() {
+					if r := recover(); r != nil {
+						res.Violation(vio.Finding{Key: "udp.filter/panic", Behaviour: bi, Text: fmt.Sprintf("size %d, base %s: the filter panicked: %v", p.Size, bk, r),
+							Replay: map[string]any{"test": "TestFilter", "filter": filterParams{Sizes: map[string]sizeParams{fmt.Sprint(p.Size): sp}, Bases: []string{bk}},
+								"init": map[string]any{"size": p.Size}, "steps": b.Steps}})
+					}
+				}()
+				replayFilter(res, bi, b, bk, p.Size, sp, acts, obs, probe, maxID)
+			}()
+		}
+		res.AddSteps(1, 0)
+		if len(acts) > 0 {
+			res.Sample(map[string]any{"size": p.Size, "bases": p.Bases, "actions": acts}, 2)
+		}
+	}
+}
+
+func replayFilter(res *vio.Result, bi int, b vio.Behaviour, bk string, size uint64, sp sizeParams, acts []filterAction, obs []map[uint64]bool, probe [][]uint64, maxID uint64) {
+	p := struct {
+		Size     uint64
+		Ids      []uint64
+		RingBits uint64
+	}{size, sp.Ids, sp.RingBits}
+	{
+		{
 			off, limit := base(bk, p.RingBits, maxID)
 			f := ss2022.NewSlidingWindowFilter(p.Size)
 			g := newGhost()
@@ -196,26 +222,34 @@ func TestFilter(t *testing.T) {
 						"init": map[string]any{"size": p.Size}, "steps": b.Steps[:n+1]}
 				}
 			}
-			good := true
+			// After the first difference from the model the rest is no longer a model behaviour; it is still executed and the
+			// property (ghost set) is still evaluated on it, but nothing is compared with the model any more.
+			good, drifted := true, false
+			model := func(want, real bool) bool {
+				if drifted {
+					return real
+				}
+				return want
+			}
 			for si, a := range acts {
 				c := a.C + off
 				switch a.N {
 				case "Add":
 					real := f.Add(c)
-					good = judge(res, "Add", real, a.Out, g, c, a.C, p.Size, bi, si, hist(si))
+					good = judge(res, "Add", real, model(a.Out, real), g, c, a.C, p.Size, bi, si, hist(si))
 					if real {
 						g.add(c)
 					}
 				case "CheckAdd":
 					real := f.IsOk(c)
-					good = judge(res, "IsOk", real, a.Out, g, c, a.C, p.Size, bi, si, hist(si))
+					good = judge(res, "IsOk", real, model(a.Out, real), g, c, a.C, p.Size, bi, si, hist(si))
 					if real {
 						f.MustAdd(c)
 						g.add(c)
 					}
 				case "IsOk":
 					real := f.IsOk(c)
-					good = judge(res, "IsOk", real, a.Out, g, c, a.C, p.Size, bi, si, hist(si))
+					good = judge(res, "IsOk", real, model(a.Out, real), g, c, a.C, p.Size, bi, si, hist(si))
 				case "Reset":
 					f.Reset()
 					g = newGhost()
@@ -226,6 +260,9 @@ func TestFilter(t *testing.T) {
 				}
 				res.Seen(fmt.Sprintf("%d/%s/%s/%v", p.Size, bk, a.N, a.Out))
 				// state projection: IsOk over the alphabet (does not change the filter)
+				if !good {
+					drifted = !b.Cex
+				}
 				if good && obs[si] != nil {
 					sweep := probe[si]
 					if sweep == nil {
@@ -235,25 +272,17 @@ func TestFilter(t *testing.T) {
 						if id > limit {
 							continue
 						}
-						if !judge(res, "IsOk", f.IsOk(id+off), obs[si][id], g, id+off, id, p.Size, bi, si, hist(si)) {
+						real := f.IsOk(id + off)
+						if !judge(res, "IsOk", real, model(obs[si][id], real), g, id+off, id, p.Size, bi, si, hist(si)) {
 							good = false
+							drifted = !b.Cex
 							break
 						}
 					}
 				}
-				if !good && !b.Cex {
-					res.AddSteps(0, si+1)
-					break
-				}
 			}
-			if good {
-				res.AddSteps(0, len(acts))
-			}
+			res.AddSteps(0, len(acts))
 			res.Count("filter_runs", 1)
-		}
-		res.AddSteps(1, 0)
-		if len(acts) > 0 {
-			res.Sample(map[string]any{"size": p.Size, "bases": p.Bases, "actions": acts}, 2)
 		}
 	}
 }
@@ -398,7 +427,14 @@ func TestFilterDFS(t *testing.T) {
 				prefix = prefix[:len(prefix)-1]
 			}
 		}
-		rec()
+		func() {
+			defer func() {
+				if r := recover(); r != nil {
+					report("udp.filter/panic", fmt.Sprintf("the filter panicked: %v", r), prefix)
+				}
+			}()
+			rec()
+		}()
 		distinctStates = len(states)
 		res.Count("dfs_sequences", sequences)
 		res.Count("dfs_verdicts", verdicts)
